@@ -518,6 +518,39 @@ func init() {
 						}
 					}
 				}},
+				{Name: "operand-rebinding", N: len(c04OperandPrograms), Note: fmt.Sprintf("%d operator, indexer and type-test programs whose operands are environment variables: one compiled expression under every ordered pair of 6 bindings (then the first again); each result equals that of an expression compiled for the occasion", len(c04OperandPrograms)), Run: func(i int, r *core.Rec) {
+					src := c04OperandPrograms[i]
+					in := []fhir.Resource{lib.Patient()}
+					binds := []map[string]any{
+						{"a": system.Integer(0), "b": system.Integer(1), "s": system.String("x"), "t": system.String("y"), "p": system.Boolean(true), "q": system.Boolean(false), "c": system.Collection{system.Integer(10), system.Integer(20), system.Integer(30)}},
+						{"a": system.Integer(1), "b": system.Integer(2), "s": system.String("y"), "t": system.String("y"), "p": system.Boolean(false), "q": system.Boolean(false), "c": system.Collection{system.String("u"), system.String("v")}},
+						{"a": system.Integer(2), "b": system.Integer(0), "s": system.String(""), "t": system.String("x"), "p": system.Boolean(true), "q": system.Boolean(true), "c": system.Collection{}},
+						{"a": system.Integer(-1), "b": system.Integer(7), "s": system.String("xy"), "t": system.String("x"), "p": system.Boolean(false), "q": system.Boolean(true), "c": system.Collection{system.Integer(5)}},
+						{"a": system.MustParseDecimal("1.5"), "b": system.MustParseDecimal("0.5"), "s": system.String("é"), "t": system.String("é"), "p": system.Collection{}, "q": system.Boolean(true), "c": system.Collection{system.Boolean(true), system.Boolean(false), system.Boolean(true), system.Boolean(true)}},
+						{"a": system.Integer(3), "b": system.Integer(3), "s": system.String("x"), "t": system.String("X"), "p": system.Boolean(true), "q": system.Collection{}, "c": system.Collection{system.Integer(10), system.Integer(20), system.Integer(30)}},
+					}
+					shared := lib.Compile(src)
+					if shared.CompileErr != nil || shared.Panic != nil {
+						r.Fail("operand-rebinding|program-does-not-compile", core.W{"src": src, "got": shared.String()})
+						return
+					}
+					for x := range binds {
+						for y := range binds {
+							for step, b := range []map[string]any{binds[x], binds[y], binds[x]} {
+								got := lib.EvalOpts(shared, in, lib.EnvOpts(b)...)
+								want := lib.Run(src, in, b)
+								r.Eval()
+								r.Eval()
+								r.Nontrivial(src, fmt.Sprint(x, y, step), got.Class())
+								if got.String() != want.String() {
+									r.Fail("operand-rebinding|result-of-an-earlier-binding|"+c04ProgClass(src), core.W{"src": src, "bindings": fmt.Sprint(x, y), "step": step + 1, "got": core.Short(got.String(), 200), "freshly_compiled": core.Short(want.String(), 200)})
+									return
+								}
+							}
+						}
+					}
+					r.State("operand-rebinding|" + c04ProgClass(src))
+				}},
 				{Name: "repeated-evaluations", N: len(c04RepeatPrograms), Note: fmt.Sprintf("%d programs over collections of 16..40 items (strings, integers, decimals, elements, with duplicates) evaluated 8 times on one compiled expression and on freshly compiled ones: the same items in the same order every time", len(c04RepeatPrograms)), Run: func(i int, r *core.Rec) {
 					src := c04RepeatPrograms[i]
 					big, ints, decs := system.Collection{}, system.Collection{}, system.Collection{}
@@ -1098,6 +1131,25 @@ func c04PatchOps() []c04PatchOp {
 		{"Add id on contact name of Organization", "contact[0].name", org, add("text", func() fhir.Base { return fhir.String("t") })},
 		{"Add text on contact name of Patient", "contact[0].name", patient, add("text", func() fhir.Base { return fhir.String("t") })},
 	}
+}
+
+var c04OperandPrograms = []string{
+	"%c[%a]", "%c[%b]", "Patient.name[%a].family", "Patient.name.given[%b]", "Patient.name[%a].given[%b]", "%c[%a + 1]", "%c.skip(%a).take(%b)", "%a + %b", "%a - %b", "%a * %b", "%a / %b", "%a div %b", "%a mod %b", "-%a", "+%b", "%s & %t",
+	"%s + %t", "%a = %b", "%a != %b", "%a < %b", "%a <= %b", "%a > %b", "%a >= %b", "%s = %t", "%s < %t", "%p and %q", "%p or %q", "%p xor %q", "%p implies %q", "%p.not()", "%a is Integer", "%a is Decimal", "%a as Integer",
+	"%c.count() + %a", "%c.first()", "%c.where($this = %a)", "%c.select($this = %b)", "%c.exists($this = %a)", "%c.all($this is Integer)", "iif(%p, %a, %b)", "iif(%q, %s, %t)", "Patient.name.where(family = %s).count()",
+	"Patient.name.select(given[%a])", "Patient.name.where($this.given.count() > %a).given[%b]", "(%a + %b) * (%a - %b)", "%s.length() + %a", "%s.substring(%a)", "%s.indexOf(%t)", "%c = %c", "%c.take(%b) = %c.take(%a)",
+}
+
+func c04ProgClass(src string) string {
+	switch {
+	case strings.Contains(src, "["):
+		return "indexer"
+	case strings.Contains(src, " is ") || strings.Contains(src, " as "):
+		return "type"
+	case strings.Contains(src, "("):
+		return "function"
+	}
+	return "operator"
 }
 
 var c04RebindList []string
